@@ -274,7 +274,7 @@ theorem charEscL_sim (n hn ic : Bool) (x : Nat) (r : List Nat) (hx : x ≠ 0x63)
 
 theorem isOctal_plain {c : Nat} (h : ESG.isOctal c = true) : Plain c := by
   simp only [ESG.isOctal, Bool.and_eq_true, decide_eq_true_eq] at h
-  refine ⟨?_, ?_, ?_, ?_, ?_⟩ <;> omega
+  refine ⟨?_, ?_, ?_, ?_, ?_, ?_⟩ <;> omega
 
 theorem legacyOctal_neutral (F : Feat) (m : Nat) (d : Nat) (r : List Nat) :
     ∃ t, r = t ++ (legacyOctal d r).2 ∧ NeutralM F m t := by
@@ -614,7 +614,7 @@ theorem atomSim_L (F : Feat) (c : Cfg) (hcu : c.u = false) (fl : Flags) (hn : Bo
       refine neutralM_append (p := [0x5C, 0x63]) (neutralM_esc F 1 0x63) (neutralM_plain F 1 ?_)
       simp only [ESG.isAsciiLetter, ESG.isDigit, Bool.or_eq_true, Bool.and_eq_true, decide_eq_true_eq,
         beq_iff_eq] at hl
-      refine ⟨?_, ?_, ?_, ?_, ?_⟩ <;> omega
+      refine ⟨?_, ?_, ?_, ?_, ?_, ?_⟩ <;> omega
   -- everything else: `consume_character_escape`
   have hU' : y = 0x75 → uOkL r' = true := by
     intro hy
